@@ -67,7 +67,24 @@ def _gen(case, j):
         7: ("field", "phasor_poynting"),
     }[f]
     first = ("dipole", "uniform", "gaussian", "tfsf", "dipole", "uniform", "dipole", "gaussian")[f]
-    scene, tags = randscene.random_scene(rng, must_have=must, dispersive_prob=0.15, first_source=first)
+    # a full-tensor box switches the whole scene to the 9-component kernels; the aligned-dipole slots keep the
+    # 1/3-component kernels (the most common configuration) in play
+    mc = ("iso", "diag", "lossy", "magnetic", "lossy_mag") if f in (0, 4) else None
+    scene, tags = randscene.random_scene(rng, must_have=must, dispersive_prob=0.15, first_source=first, allowed_mats=mc)
+    # the three dipole slots drive the three injection paths: aligned electric, aligned magnetic, rotated
+    d0 = scene["sources"][0]
+    if d0["kind"] == "dipole":
+        if f == 0:
+            d0["source_type"] = "electric"
+            d0.pop("azimuth_angle", None)
+            d0.pop("elevation_angle", None)
+        elif f == 4:
+            d0["source_type"] = "magnetic"
+            d0.pop("azimuth_angle", None)
+            d0.pop("elevation_angle", None)
+        else:
+            d0["azimuth_angle"], d0["elevation_angle"] = 25.0, -15.0
+        tags["srcs"] = tags["srcs"].replace("dipole-electric", "dipole", 1).replace("dipole-magnetic", "dipole", 1)
     # complex-typed FieldDetector records in some scenes
     for d in scene["detectors"]:
         if d["kind"] == "field" and rng.random() < 0.3:
